@@ -17,7 +17,7 @@ use vpmodel::spec::ChainSpec;
 pub const DEF: PropDef = PropDef {
     id: "C02",
     level: "exploration",
-    rule: "part 1 (bounded-exhaustive): for every tip height T<=Tmax, every accepted option combination (none; -s in 0..=T; -e in 1..=T+3; both with s<e) x 5 callbacks x 2 coins on a fixed generated chain; part 2 (random): chains up to 60 blocks, base heights up to 10^7 (segment chains), random (s,e). Oracle: callback output == reference model applied to exactly heights s..=min(e,T); file names carry s and min(e,T); 'Processed blocks up to height' == min(e,T); for csvdump/opreturn the range output equals the row slice of the whole-chain output. Non-trivial = a range option is given and at least one block of the chain is excluded; distinct by (T, base, s, e, callback, coin).",
+    rule: "part 1 (bounded-exhaustive): for every tip height T<=Tmax, every accepted option combination (none; -s in 0..=T; -e in 1..=T+3; both with s<e) x 5 callbacks x 2 coins on a fixed generated chain; part 2 (random): chains up to 60 blocks in generated physical layouts (1..60 blk files, any order), base heights up to 10^7 (segment chains), random (s,e). Oracle: callback output == reference model applied to exactly heights s..=min(e,T); file names carry s and min(e,T); 'Processed blocks up to height' == min(e,T); for csvdump/opreturn the range output equals the row slice of the whole-chain output. Non-trivial = a range option is given and at least one block of the chain is excluded; distinct by (T, base, s, e, callback, coin).",
     assumptions: &["options the CLI accepts: s<e when both are given; s <= T (a start beyond the tip is outside the statement)", "for chains whose first indexed height is > 0 a --start at or above that height is given"],
     run,
     replay,
@@ -29,6 +29,9 @@ pub struct Case {
     pub start: Option<u64>,
     pub end: Option<u64>,
     pub cb: Callback,
+    /// physical layout (None = canonical single file)
+    #[serde(default)]
+    pub layout: Option<vpmodel::layout::LayoutSpec>,
 }
 
 fn chain_cfg(tier: Tier) -> gen::ChainCfg {
@@ -64,7 +67,10 @@ pub fn check(c: &Case) -> Verdict {
         // outside the accepted domain (generators avoid this; shrinking may reach it)
         return Verdict::Pass(Pass::default());
     }
-    let mut plan = canonical_plan(built.coin, &built.blocks);
+    let mut plan = match &c.layout {
+        Some(l) => l.to_plan(&built),
+        None => canonical_plan(built.coin, &built.blocks),
+    };
     let w = infra!(World::create("c02", &mut plan));
     let mut o = RunOpts::new(built.coin, c.cb);
     o.start = start;
@@ -141,7 +147,7 @@ pub fn exhaustive_cases(seed: u64, tmax: u64, tier: Tier) -> Vec<Case> {
             }
             for (s, e) in opts {
                 for cb in ALL_CALLBACKS {
-                    v.push(Case { chain: chain.clone(), start: s, end: e, cb });
+                    v.push(Case { chain: chain.clone(), start: s, end: e, cb, layout: None });
                 }
             }
         }
@@ -153,8 +159,8 @@ pub fn random_strategy(tier: Tier) -> BS<Case> {
     let mut cfg = chain_cfg(tier);
     cfg.nblocks = prop_oneof![6 => 1usize..12, 2 => 12usize..30, 1 => 30usize..=60].boxed();
     cfg.base = gen::wide_base();
-    (gen::chain(&cfg), any::<u16>(), any::<u16>(), 0u8..4, 0u8..6, proptest::sample::select(ALL_CALLBACKS.to_vec()))
-        .prop_map(|(chain, a, b, mode, above, cb)| {
+    (gen::chain(&cfg), any::<u16>(), any::<u16>(), 0u8..4, 0u8..6, proptest::sample::select(ALL_CALLBACKS.to_vec()), proptest::option::weighted(0.6, vpmodel::layout::layout(tier, false, false)))
+        .prop_map(|(chain, a, b, mode, above, cb, layout)| {
             let n = chain.blocks.len() as u64;
             let (base, tip) = (chain.base, chain.base + n - 1);
             // s in base..=tip ; e in s+1..=tip+above
@@ -167,7 +173,7 @@ pub fn random_strategy(tier: Tier) -> BS<Case> {
                 2 => (None, Some(e.max(base + 1))),
                 _ => (Some(s), Some(e)),
             };
-            Case { chain, start, end, cb }
+            Case { chain, start, end, cb, layout }
         })
         .boxed()
 }
